@@ -538,6 +538,9 @@ pub fn run(cfg: &Cfg, rep: &mut Report, mode: &Mode2) {
     let deadline = Deadline::new(cfg.budget_s);
     let n = cfg.per_shard(40_000, 4_000_000);
     let profiles = profiles();
+    if mode.prop == "C02" {
+        crate::props::c18::panic_sweep(cfg, rep);
+    }
     let mut ctx = Ctx { rep, mode, reported: 0, per_key: Default::default() };
     let mut rng = cfg.rng(0x501);
     if cfg.shard == 0 {
